@@ -107,6 +107,83 @@ func c06inputs(c *Ctx) []c06input {
 		}
 		add("linear-cost/key-many-parameters", refcbor.Encode(km))
 	}
+	// integers at the ends of their ranges in every position where a number selects something (alg, kty,
+	// crv, key_ops entries, the hash-envelope labels, content type), and CWT claims of every registered
+	// shape incl. the three forms of the confirmation claim (RFC 8747: COSE_Key, Encrypted_COSE_Key, kid)
+	{
+		ext := []*Node{refcbor.NInt(-1 << 63), refcbor.NInt(-1<<63 + 1), refcbor.NInt(1<<63 - 1), {Major: refcbor.Uint, Arg: 1 << 63}, {Major: refcbor.Uint, Arg: ^uint64(0)}, {Major: refcbor.Nint, Arg: ^uint64(0)}, {Major: refcbor.Nint, Arg: 1 << 63},
+			refcbor.NInt(-1 << 31), refcbor.NInt(1 << 31), refcbor.NInt(-1<<31 - 1), refcbor.NInt(1 << 32), refcbor.NInt(-1 << 15), refcbor.NInt(1 << 16), refcbor.NInt(-256), refcbor.NInt(-257), refcbor.NInt(255), refcbor.NInt(256), refcbor.NInt(0)}
+		x32 := refcbor.NBstr(r.Bytes(32))
+		for _, v := range ext {
+			for _, pos := range []int64{1, 3, -1, 4} {
+				km := refcbor.NMap(refcbor.NInt(1), refcbor.NInt(2), refcbor.NInt(3), refcbor.NInt(-7), refcbor.NInt(-1), refcbor.NInt(1), refcbor.NInt(-2), x32, refcbor.NInt(-3), x32)
+				om := refcbor.NMap(refcbor.NInt(1), refcbor.NInt(1), refcbor.NInt(3), refcbor.NInt(-8), refcbor.NInt(-1), refcbor.NInt(6), refcbor.NInt(-2), x32)
+				for _, m := range []*Node{km, om} {
+					val := v
+					if pos == 4 {
+						val = refcbor.NArr(v, refcbor.NInt(2))
+						m.Kids = append(m.Kids, refcbor.NInt(4), val)
+					} else {
+						for i := 0; i+1 < len(m.Kids); i += 2 {
+							if k, ok := m.Kids[i].Int64(); ok && k == pos {
+								m.Kids[i+1] = val
+							}
+						}
+					}
+					add("extreme-integers/key", refcbor.Encode(m))
+				}
+			}
+			for _, label := range []int64{1, 3, 16, 258, 259, 260, 15} {
+				pm := refcbor.NMap(refcbor.NInt(1), refcbor.NInt(-7), refcbor.NInt(258), refcbor.NInt(-16))
+				replaced := false
+				for i := 0; i+1 < len(pm.Kids); i += 2 {
+					if k, _ := pm.Kids[i].Int64(); k == label {
+						pm.Kids[i+1] = v
+						replaced = true
+					}
+				}
+				if !replaced {
+					pm.Kids = append(pm.Kids, refcbor.NInt(label), v)
+				}
+				for _, plen := range []int{32, 0, 64} {
+					add("extreme-integers/envelope", (&gen.WSign1{L: gen.WLayer{ProtMap: pm, Unprot: refcbor.NMap()}, Payload: make([]byte, plen), Sig: mon.FixedSig, Tagged: true}).Bytes())
+				}
+				add("extreme-integers/bucket", refcbor.Encode(refcbor.NBstr(refcbor.Encode(pm))))
+				add("extreme-integers/bucket", refcbor.Encode(refcbor.NMap(refcbor.NInt(label), v)))
+			}
+		}
+		key := refcbor.NMap(refcbor.NInt(1), refcbor.NInt(2), refcbor.NInt(-1), refcbor.NInt(1), refcbor.NInt(-2), x32, refcbor.NInt(-3), x32)
+		cnfs := []*Node{
+			refcbor.NMap(refcbor.NInt(1), key), refcbor.NMap(refcbor.NInt(3), refcbor.NBstr([]byte("kid"))), refcbor.NMap(refcbor.NInt(2), refcbor.NArr(refcbor.NBstr(nil), refcbor.NMap(), refcbor.NBstr([]byte{1}))),
+			refcbor.NMap(refcbor.NInt(1), refcbor.NBstr(refcbor.Encode(key))), refcbor.NMap(), refcbor.NMap(refcbor.NInt(1), refcbor.NNull()), refcbor.NMap(refcbor.NInt(1), refcbor.NMap()), refcbor.NMap(refcbor.NInt(1), refcbor.NInt(1)),
+			refcbor.NMap(refcbor.NInt(1), key, refcbor.NInt(3), refcbor.NBstr([]byte("kid"))), refcbor.NMap(refcbor.NTstr("jwk"), refcbor.NMap()), refcbor.NBstr([]byte("cnf")), refcbor.NArr(key), refcbor.NNull(), refcbor.NInt(1),
+			refcbor.NMap(refcbor.NInt(1), refcbor.NMap(refcbor.NInt(1), refcbor.NTstr("EC2"))), refcbor.NMap(refcbor.NInt(4), refcbor.NInt(0)),
+		}
+		others := [][2]*Node{{refcbor.NInt(1), refcbor.NTstr("iss")}, {refcbor.NInt(1), refcbor.NInt(1)}, {refcbor.NInt(2), refcbor.NBstr([]byte("sub"))}, {refcbor.NInt(3), refcbor.NArr(refcbor.NTstr("aud"))}, {refcbor.NInt(4), refcbor.NFloat64(1.5)},
+			{refcbor.NInt(4), refcbor.NTstr("exp")}, {refcbor.NInt(5), refcbor.NInt(-1 << 63)}, {refcbor.NInt(6), {Major: refcbor.Tag, Arg: 1, Kids: []*Node{refcbor.NInt(1)}}}, {refcbor.NInt(7), refcbor.NTstr("cti")}, {refcbor.NInt(7), refcbor.NBstr(nil)},
+			{refcbor.NInt(9), refcbor.NTstr("scope")}, {refcbor.NInt(10), refcbor.NBstr([]byte("nonce"))}, {refcbor.NInt(-1 << 63), refcbor.NInt(0)}, {refcbor.NTstr(""), refcbor.NNull()}}
+		for ci, cnf := range cnfs {
+			for oi := -1; oi < len(others); oi++ {
+				if oi >= 0 && (ci+oi)%3 != 0 {
+					continue
+				}
+				claims := refcbor.NMap(refcbor.NInt(8), cnf)
+				if oi >= 0 {
+					claims.Kids = append(claims.Kids, others[oi][0], others[oi][1])
+				}
+				pm := refcbor.NMap(refcbor.NInt(1), refcbor.NInt(-7), refcbor.NInt(15), claims)
+				add("cwt-claims/protected", (&gen.WSign1{L: gen.WLayer{ProtMap: pm, Unprot: refcbor.NMap()}, Payload: []byte("p"), Sig: mon.FixedSig, Tagged: true}).Bytes())
+				add("cwt-claims/unprotected", (&gen.WSign1{L: gen.WLayer{ProtMap: refcbor.NMap(refcbor.NInt(1), refcbor.NInt(-7)), Unprot: refcbor.NMap(refcbor.NInt(15), claims)}, Payload: []byte("p"), Sig: mon.FixedSig}).Bytes())
+				add("cwt-claims/bucket", refcbor.Encode(refcbor.NBstr(refcbor.Encode(pm))))
+				add("cwt-claims/bucket", refcbor.Encode(refcbor.NMap(refcbor.NInt(15), claims)))
+			}
+		}
+		for _, o := range others {
+			claims := refcbor.NMap(o[0], o[1])
+			add("cwt-claims/bucket", refcbor.Encode(refcbor.NBstr(refcbor.Encode(refcbor.NMap(refcbor.NInt(1), refcbor.NInt(-7), refcbor.NInt(15), claims)))))
+			add("cwt-claims/protected", (&gen.WSign1{L: gen.WLayer{ProtMap: refcbor.NMap(refcbor.NInt(1), refcbor.NInt(-7), refcbor.NInt(15), claims), Unprot: refcbor.NMap()}, Payload: []byte("p"), Sig: mon.FixedSig, Tagged: true}).Bytes())
+		}
+	}
 	for n := 0; n < c.N(4000, 100000); n++ {
 		add("random", r.Bytes(1+r.Intn(60)))
 	}
@@ -965,6 +1042,14 @@ func (e *c06env) run(entry string, b []byte) {
 		if probe.UnmarshalCBOR(b) == nil {
 			e.sum.Accepted[entry]++
 			if a, err := probe.Headers.Protected.Algorithm(); err == nil {
+				// a verifier of the message's own algorithm that accepts: everything behind the signature
+				// check (the envelope rules, the digest-length rule) runs on the hostile values
+				if m, err := cose.VerifyHashEnvelope(&mon.SpyVerifier{Alg: a}, b); err == nil && m != nil {
+					_, _ = m.MarshalCBOR()
+					for _, l := range []int64{258, 259, 260} {
+						_ = fmt.Sprint(m.Headers.Protected[l])
+					}
+				}
 				if k, ok := e.keys.By[a]; ok {
 					_, _ = cose.VerifyHashEnvelope(k.Verifier, b)
 				}
